@@ -93,6 +93,10 @@ def random_data(seed, nt=3, nv=2, nq=2, na=1, equal_e=False, t_layout="zero_firs
     ei = numpy.array([r.uniform(0.05, 0.9) for _ in range(nv)])
     d["e_i"] = ei
     d["e_j"] = ei.copy() if equal_e else numpy.array([r.uniform(0.05, 0.9) for _ in range(nv)])
+    if seed % 2 == 1 and not equal_e:
+        d["e_j"] = -d["e_j"]          # an axis that lengthens under compression (negative linear compressibility): its strain fraction is negative, e_i e_j < 0
+    if seed % 2 == 1 and nq >= 2:
+        d["wq"][0] = 0.0              # the first listed q-point carries no weight (its three lowest modes are still the ones excluded: the exclusion is positional)
     d["Ptot"] = numpy.array([[r.uniform(-0.01, 0.01) for _ in range(nv)] for _ in range(nt)])
     d["Pstatic"] = numpy.array([r.uniform(-0.01, 0.01) for _ in range(nv)])
     d["Cv"] = numpy.array([[r.uniform(1e-6, 1e-4) for _ in range(nv)] for _ in range(nt)])
